@@ -2,7 +2,7 @@
 EXTENDS Sig, FkCases
 
 Locs3 == {"en", "fr", "de"}
-KindNames == {"text", "num", "varx", "vary_compb", "comp_only", "comp_nested_only", "comp_var_only", "range_u8", "range_i8", "plural", "plural_renamed", "range_fk_renamed", "range_fk_mixed_then_var", "null"}
+KindNames == {"text", "num", "varx", "vary_compb", "comp_only", "comp_nested_only", "comp_var_only", "range_u8", "range_i8", "plural", "plural_renamed", "range_fk_renamed", "range_fk_mixed_then_var", "range_f32_fk_at_excl_end", "null"}
 
 RangeOf(ty, tag) == [k |-> "ranges", ty |-> ty, ck |-> Cnt,
                      b |-> << [alts |-> <<Exact(2)>>, v |-> <<T(tag \o <<"1">>), V(X)>>], [alts |-> <<Wild>>, v |-> <<T(tag \o <<"2">>), V(Cnt)>>] >>]
@@ -14,6 +14,14 @@ N1 == <<"n">>
 RangeMixed == [k |-> "ranges", ty |-> "i32", ck |-> Cnt,
                b |-> << [alts |-> <<Exact(3)>>, v |-> <<V(X), T(<<"SP","a">>)>>], [alts |-> <<Exact(4)>>, v |-> <<T(<<"l","i","t">>)>>],
                         [alts |-> <<Wild>>, v |-> <<V(Cnt), T(<<"SP","m">>)>>] >>]
+
+\* a float range whose first arm ends EXCLUSIVELY where the second begins; a reference fixes the count exactly there, so the
+\* arguments of the referring key are those of the SECOND arm (floats keep their exclusive ends, integers are normalised)
+RangeF32 == [k |-> "ranges", ty |-> "f32", ck |-> Cnt,
+             b |-> << [alts |-> <<Excl(2, 5)>>, v |-> <<T(<<"l","o","SP">>), V(X)>>],
+                      [alts |-> <<Excl(5, 6)>>, v |-> <<T(<<"h","i","SP">>), Comp(<<"b">>, <<V(Y)>>)>>],
+                      [alts |-> <<Wild>>, v |-> <<T(<<"o">>)>>] >>]
+NumF32(i) == ArgN(Cnt, Anchor["f32"][i], Disp["f32"][i], i, "")
 
 \* the entry of key k in locale x for a kind
 EntryFor(kind, x) ==
@@ -31,11 +39,12 @@ EntryFor(kind, x) ==
       [] kind = "plural_renamed" -> Val(<<T(tag), Fk(<<"p">>, <<ArgP(Cnt, <<V(N1)>>)>>)>>)
       [] kind = "range_fk_renamed" -> Val(<<Fk(<<"r">>, <<ArgP(Cnt, <<V(N1)>>), ArgP(X, <<T(<<"A">>)>>)>>)>>)
       [] kind = "range_fk_mixed_then_var" -> Val(<<Fk(<<"s">>, <<>>), T(<<"SP">> \o tag), V(X)>>)
+      [] kind = "range_f32_fk_at_excl_end" -> Val(<<T(tag), Fk(<<"f">>, <<NumF32(5)>>)>>)
       [] OTHER -> [k |-> "null"]
 
 ProjectFor(kinds) ==
     [def |-> "en", locs |-> <<"en", "fr", "de">>, inh |-> << >>,
-     vals |-> [x \in Locs3 |-> [k |-> EntryFor(kinds[x], x), p |-> PluralOf(<<"p">>), r |-> RangeOf("u8", <<"r">>), s |-> RangeMixed]]]
+     vals |-> [x \in Locs3 |-> [k |-> EntryFor(kinds[x], x), p |-> PluralOf(<<"p">>), r |-> RangeOf("u8", <<"r">>), s |-> RangeMixed, f |-> RangeF32]]]
 
 ContribOf(kinds) ==
     LET P == ProjectFor(kinds) IN
@@ -50,7 +59,7 @@ VARIABLE kinds
 MCInit == kinds \in KindChoices /\ InitWith(ContribOf(kinds))
 MCNext == Next /\ UNCHANGED kinds
 EmitCases == (todo = Locs3 /\ ~err) =>
-    PrintT(<<"CASE", ToJson(ProjectCase("sig-mix", ProjectFor(kinds), [k \in {"k", "p", "r", "s"} |-> k],
+    PrintT(<<"CASE", ToJson(ProjectCase("sig-mix", ProjectFor(kinds), [k \in {"k", "p", "r", "s", "f"} |-> k],
                                         IF MustFail(contrib) THEN "must-fail" ELSE "none"))>>)
 MCSpec == MCInit /\ [][MCNext]_<<vars, kinds>> /\ WF_<<vars, kinds>>(MCNext)
 =============================================================================
